@@ -199,3 +199,65 @@ Proof.
   eapply spawn_all_future; [|exact Hy].
   intros sp Hsp. eapply Hp; eauto using nth_error_In.
 Qed.
+
+(* ---------------------------------------------------------------- scripts terminate *)
+From Akita Require Import Lib.EngineTermination.
+
+Lemma spawn_all_allow now bud sps : forall hs,
+  (length (snd (spawn_all now bud sps hs)) + N.to_nat (h_cap (fst (spawn_all now bud sps hs))) <= N.to_nat (h_cap hs))%nat.
+Proof.
+  induction sps as [|sp r IH]; intro hs; cbn [spawn_all]; [cbn; lia|].
+  destruct (N.eqb_spec (h_cap hs) 0) as [Hz|Hnz]; [cbn; lia|].
+  specialize (IH (mk_hst (h_next hs + 1) (h_cap hs - 1))).
+  destruct (spawn_all now bud r _) as [hs' es]. cbn [fst snd length h_cap] in *. lia.
+Qed.
+
+Lemma script_allow p hs e :
+  (length (snd (script_handler p hs e)) + N.to_nat (h_cap (fst (script_handler p hs e))) <= N.to_nat (h_cap hs))%nat.
+Proof.
+  unfold script_handler. destruct (s_bud e =? 0); [cbn; lia|].
+  destruct (nth_error p _) as [alts|]; [|cbn; lia].
+  destruct (nth_error alts _) as [alt|]; [|cbn; lia]. apply spawn_all_allow.
+Qed.
+
+Lemma init_events_length l : forall uid, length (init_events uid l) = length l.
+Proof. induction l as [|[[[t h] s] b] r IH]; intro uid; cbn [init_events length]; [reflexivity|]. rewrite IH. reflexivity. Qed.
+
+Lemma run_script_eq p cap init :
+  run_script p cap init =
+  run s_time s_sec (script_handler p) (script_fuel cap init) (mk_hst (N.of_nat (length init)) cap)
+      (start_en s_time s_sec (init_events 0 init)).
+Proof.
+  unfold run_script, script_start, start_en.
+  destruct (schedule_all s_time s_sec new_engine (init_events 0 init)) as [[en xs] ok]. reflexivity.
+Qed.
+
+(** every script ends (returns or panics) within the fuel the correspondence check gives it *)
+Lemma script_run_ends p cap init : r_out (run_script p cap init) <> OutOfFuel.
+Proof.
+  rewrite run_script_eq.
+  apply (run_enough_fuel s_time s_sec (script_handler p) (fun hs => N.to_nat (h_cap hs)) (script_allow p)).
+  pose proof (schedule_all_len s_time s_sec (init_events 0 init) new_engine) as Hl.
+  unfold start_en. destruct (schedule_all s_time s_sec new_engine (init_events 0 init)) as [[en xs] ok].
+  cbn [fst h_cap]. rewrite init_events_length in Hl. cbn [pending new_engine e_p e_s q_heap q_empty app length] in Hl.
+  unfold script_fuel. lia.
+Qed.
+
+(** ... and a script without negative offsets returns normally *)
+Lemma script_run_done p cap init : nonneg_prog p -> r_out (run_script p cap init) = Done.
+Proof.
+  intro Hp. pose proof (script_run_ends p cap init) as H1.
+  assert (H2 : r_out (run_script p cap init) <> Panicked).
+  { rewrite run_script_eq. apply run_no_panic; [apply script_H_ok; exact Hp|].
+    destruct (start_spec s_time s_sec (init_events 0 init)) as (_ & Hok & _). exact Hok. }
+  destruct (r_out (run_script p cap init)); congruence.
+Qed.
+
+(* ---------------------------------------------------------------- SetCurrentTime(0) is the plain run *)
+Lemma run_script_at_0 p cap init : run_script_at p cap init 0 = run_script p cap init.
+Proof.
+  unfold run_script_at, run_script, script_start.
+  pose proof (start_spec s_time s_sec (init_events 0 init)) as (Hsa & _ & _ & _ & Hn & _).
+  unfold start_en in Hn. destruct (schedule_all s_time s_sec new_engine (init_events 0 init)) as [[en xs] ok].
+  cbn [fst] in Hn. unfold set_current_time. rewrite <- Hn. destruct en; reflexivity.
+Qed.
